@@ -74,6 +74,8 @@ type frame struct {
 	cur              ssa.Instruction
 	symIfs           map[ssa.Instruction]int
 	task             *task
+	harness          bool
+	harnessKnown     bool
 }
 
 func (i *interpreter) infoFor(fn *ssa.Function) *fnInfo {
@@ -303,6 +305,9 @@ func (i *interpreter) visitInstr(fr *frame, instr ssa.Instruction) continuation 
 			panic(i.nilDeref())
 		}
 		i.noteStoreVal(p, fr.get(instr.Val))
+		if i.race != nil {
+			i.raceWrite(mustDeref(instr.Addr.Type()), p)
+		}
 		store(mustDeref(instr.Addr.Type()), p, fr.get(instr.Val))
 
 	case *ssa.If:
@@ -369,6 +374,9 @@ func (i *interpreter) visitInstr(fr *frame, instr ssa.Instruction) continuation 
 		fr.set(instr, makeMap(instr.Type().Underlying().(*types.Map).Key()))
 
 	case *ssa.Range:
+		if m, ok := fr.get(instr.X).(*omap); ok && i.race != nil {
+			i.raceObj(m, false)
+		}
 		fr.set(instr, i.rangeIter(fr.get(instr.X), instr.X.Type()))
 
 	case *ssa.Next:
@@ -416,6 +424,9 @@ func (i *interpreter) visitInstr(fr *frame, instr ssa.Instruction) continuation 
 
 	case *ssa.Lookup:
 		m := fr.get(instr.X).(*omap)
+		if i.race != nil {
+			i.raceObj(m, false)
+		}
 		v, ok := i.mapLookup(m, fr.get(instr.Index))
 		if !ok {
 			v = zero(instr.X.Type().Underlying().(*types.Map).Elem())
@@ -428,6 +439,9 @@ func (i *interpreter) visitInstr(fr *frame, instr ssa.Instruction) continuation 
 		fr.set(instr, v)
 
 	case *ssa.MapUpdate:
+		if i.race != nil {
+			i.raceObj(fr.get(instr.Map).(*omap), true)
+		}
 		i.mapInsert(fr.get(instr.Map).(*omap), fr.get(instr.Key), fr.get(instr.Value))
 
 	case *ssa.TypeAssert:
@@ -743,6 +757,19 @@ func (i *interpreter) callBuiltin(caller *frame, callpos token.Pos, fn *ssa.Buil
 			}
 		}
 		dst := args[0].([]value)
+		if i.race != nil {
+			if src, ok := args[1].([]value); ok {
+				for k := range src {
+					i.raceCell(&src[k], false)
+				}
+			}
+			if len(dst)+len(cp) <= cap(dst) {
+				full := dst[:cap(dst)]
+				for k := range cp {
+					i.raceCell(&full[len(dst)+k], true)
+				}
+			}
+		}
 		if i.watch != nil && len(dst)+len(cp) <= cap(dst) {
 			// in-place append: the cells between len and cap of the backing array are written
 			full := dst[:cap(dst)]
@@ -773,6 +800,12 @@ func (i *interpreter) callBuiltin(caller *frame, callpos token.Pos, fn *ssa.Buil
 				i.noteStoreVal(&dst[k], tmp[k])
 			}
 		}
+		if i.race != nil {
+			for k := 0; k < n; k++ {
+				i.raceCell(&ss[k], false)
+				i.raceCell(&dst[k], true)
+			}
+		}
 		copy(dst, tmp)
 		return n
 
@@ -781,6 +814,9 @@ func (i *interpreter) callBuiltin(caller *frame, callpos token.Pos, fn *ssa.Buil
 		return nil
 
 	case "delete":
+		if i.race != nil {
+			i.raceObj(args[0].(*omap), true)
+		}
 		i.mapDelete(args[0].(*omap), args[1])
 		return nil
 
